@@ -116,6 +116,8 @@ impl<Key, Value> CommandExecutor<Key, Value>
 
         thread::spawn(move || {
             while let Ok(pair) = receiver.recv() {
+                #[cfg(cached_verif)]
+                crate::verif_rt::hook::event("worker_dequeued", &pair.command.description(), &[Arc::as_ptr(&pair.acknowledgement) as usize as i64]);
                 let command = pair.command;
                 let status = match command {
                     CommandType::Put(key_description, value) =>
@@ -162,6 +164,8 @@ impl<Key, Value> CommandExecutor<Key, Value>
                     }
                 };
                 pair.acknowledgement.done(status);
+                #[cfg(cached_verif)]
+                crate::verif_rt::hook::event("worker_acked", "", &[Arc::as_ptr(&pair.acknowledgement) as usize as i64]);
             }
         });
     }
@@ -172,6 +176,8 @@ impl<Key, Value> CommandExecutor<Key, Value>
     /// 2) It allows `CommandExecutor` to change the status of the command inside `CommandAcknowledgement`. This would then finish the `await` at the client's end.
     pub(crate) fn send(&self, command: CommandType<Key, Value>) -> CommandSendResult {
         let acknowledgement = CommandAcknowledgement::new();
+        #[cfg(cached_verif)]
+        crate::verif_rt::hook::event("command_sent", &command.description(), &[Arc::as_ptr(&acknowledgement) as usize as i64]);
         let send_result = self.sender.send(CommandAcknowledgementPair {
             command,
             acknowledgement: acknowledgement.clone(),
